@@ -1,6 +1,8 @@
 /-
   Driver/C04.lean — line-protocol front end of Model/Span.lean.
-    stream `c04` : (c04 (incoming (xKEY IDVAL)…) (T…)) → REC;REC;…      sorted; REC = kind.tag.trace.parent.span
+    stream `c04` : (c04 VARIANT (incoming (xKEY IDVAL)…) (T…)) → REC;REC;…   (VARIANT may be omitted = concrete)
+      VARIANT ::= concrete | assert | ref | box | arc | option | boxdyn | arcdyn | assertdyn | slot   the ctxt wrapper /
+                  runtime the harness drives; transparent, the model does not depend on it      sorted; REC = kind.tag.trace.parent.span
                                                                         (decimal, `-` = absent)
       IDVAL ::= (trace N) | (span N) | (num N) | (text xHEX)
       T ::= (event EID (props (xKEY IDVAL)…)) | (cur CID)
@@ -114,9 +116,18 @@ def signature (line : String) (ts : List Tree) (incoming : List (String × IdVal
     let inc := if incoming.isEmpty then "0" else "1"
     s!"depth={min d 6},in={inc},dis={has " false "},async={has " async "},par={has "(par "},hop={has "(hop "},exec={has "(exec "},none={has " none "},panic={has "(panic)"}"
 
+/-- the ctxt wrapper / runtime variant the harness drives; the model is the same for all of them
+    (C03 `wrappers_transparent`, `erased_storage_identity`) -/
+def variants : List String :=
+  ["concrete", "assert", "ref", "box", "arc", "option", "boxdyn", "arcdyn", "assertdyn", "slot"]
+
 def runC04 (line : String) : String :=
-  match Sexp.parse line with
-  | some (.list [.atom "c04", inc, .list ts]) =>
+  let parsed := match Sexp.parse line with
+    | some (.list [.atom "c04", inc, .list ts]) => some (inc, ts)
+    | some (.list [.atom "c04", .atom v, inc, .list ts]) => if variants.contains v then some (inc, ts) else none
+    | _ => none
+  match parsed with
+  | some (inc, ts) =>
     match props? "incoming" inc, trees? 0 ts with
     | some incoming, some ts =>
       -- the outer `Frame::push(ctxt, incoming).call(..)` on thread 0, context 0, frame handle 0
@@ -127,7 +138,7 @@ def runC04 (line : String) : String :=
       let out := (recs.map Rec.render).mergeSort (fun a b => !(b < a))
       ";".intercalate out ++ (if Span.panicsL ts then ";panic" else "") ++ "\t" ++ signature line ts incoming
     | _, _ => "bad-op"
-  | _ => "bad-op"
+  | none => "bad-op"
 
 def streams : List (String × (String → String)) := [("c04", runC04)]
 
